@@ -1163,3 +1163,10 @@ package core
 //@ func (NotQuery).Exec
 //@   ensures[C03+C14.not_propagates_subquery_errors] subErr ==> result1 != nil
 //@   loop 1: invariant[C03+C14.not_error_loop] !subErr
+
+// C06/C02: reload decodes every stored record into an EMPTY target (encoding/json merges into a non-nil map, so a reused
+// target would give a record the members of the records loaded before it)
+//@ func (*IndexedState).Load
+//@   assert[C06+C02.ix_load_decodes_each_record_afresh] at "json.Unmarshal(": x == nil
+//@ func (*LinearState).Load
+//@   assert[C06+C02.lin_load_decodes_each_record_afresh] at "json.Unmarshal(": m == nil
